@@ -58,6 +58,10 @@ def latters(v, k):
     return [(4 * v + j) % (4 ** k) for j in range(4)]
 
 
+def formers(w, k):
+    return [w // 4 + i * 4 ** (k - 1) for i in range(4)]
+
+
 def complete(k):
     return [latters(v, k) for v in range(4 ** k)]
 
@@ -190,6 +194,30 @@ def chain_mask(rng, k, length=None):
     for v in rng.sample(range(4 ** k), rng.choice([0, 0, 1, 3])):
         mask[v] = 1
     return mask
+
+
+def twin_graph(rng, rows, k):
+    """a DIFFERENT arc subset with the same first-order statistics (same vertices with arcs, same number of arcs, same multiset
+    of successors, same sums): one arc u -> w is moved to another predecessor u' -> w of the same vertex w.  None if impossible."""
+    n = len(rows)
+    cands = []
+    for u in range(n):
+        if sum(x >= 0 for x in rows[u]) < 2:
+            continue
+        for j in range(4):
+            w = rows[u][j]
+            if w < 0:
+                continue
+            for u2 in formers(w, k):
+                if u2 != u and rows[u2][j] < 0 and any(x >= 0 for x in rows[u2]):
+                    cands.append((u, u2, j, w))
+    if not cands:
+        return None
+    u, u2, j, w = rng.choice(cands)
+    out = [r[:] for r in rows]
+    out[u][j] = -1
+    out[u2][j] = w
+    return out
 
 
 _BIG = {}
